@@ -433,6 +433,7 @@ package measure
 //@   modifies allof(blockCursor.idx)
 //@   at-stmt "topBC.copyTo(result, storedIndexValue, tagProjection)" requires a-new-row-is-strictly-later: len(result.Timestamps) == 0 || tsBefore(qr.ascTS, result.Timestamps[len(result.Timestamps)-1], topBC.timestamps[topBC.idx])
 //@   at-stmt "lastVersion = topBC.versions[topBC.idx]" requires all-earlier-rows-before-the-new-one: forall i :: 0 <= i && i < len(result.Timestamps) - 1 ==> tsBefore(qr.ascTS, result.Timestamps[i], result.Timestamps[len(result.Timestamps)-1])
+//@   at-stmt "lastVersion = topBC.versions[topBC.idx]" requires earlier-rows-still-strict: forall i, j :: 0 <= i && i < j && j < len(result.Timestamps) - 1 ==> tsBefore(qr.ascTS, result.Timestamps[i], result.Timestamps[j])
 //@   at-stmt "lastVersion = topBC.versions[topBC.idx]" requires still-strict-after-the-copy: strictTimes(result, qr.ascTS)
 //@   at-stmt "lastVersion = topBC.versions[topBC.idx]" requires blocks-untouched-by-the-copy: allInc()
 //@   at-stmt "topBC.idx += step" requires consumed-row-is-represented-by-a-version-at-least-as-high: len(result.Timestamps) > 0 && result.Timestamps[len(result.Timestamps)-1] == topBC.timestamps[topBC.idx] && result.Versions[len(result.Versions)-1] >= topBC.versions[topBC.idx]
@@ -509,3 +510,66 @@ package measure
 //@   loop 1 invariant row-done: forall j :: 0 <= j && j < range_i ==>
 //@     cc[j].name == ite(haskey(columns, old(b.tagFamilies[i].columns[j].name)), typedName(old(b.tagFamilies[i].columns[j].name), byte(cc[j].valueType)), old(b.tagFamilies[i].columns[j].name))
 //@   loop 1 invariant row-todo: forall j :: range_i <= j && j < len(cc) ==> cc[j].name == old(b.tagFamilies[i].columns[j].name)
+//
+//@ section C02
+//
+// The version rule at the two places that resolve a duplicate (series, timestamp), as statement-level assertions that hold
+// for every execution reaching the statement (thin contracts: "opt only-stated"; the full functional contracts of these two
+// functions are kept above under WIP tags because a few of their obligations sit at the solvers' limit).
+//
+// mergeTwoBlocks (part merge): rows left[left.idx:i] are copied including a row that duplicates right's current timestamp
+// only when left's duplicate row - the row i-1 that carries that timestamp - has a version >= right's; right's row is
+// copied over a duplicate only when it is strictly newer; the left row that is dropped is exactly the duplicate.
+//@ func mergeTwoBlocks#version-rule
+//@   mode int
+//@   opt only-stated
+//@   opt decl-pc
+//@   requires target != nil && left != nil && right != nil && target != left && target != right && left != right
+//@   requires the-output-block-shares-no-column-with-an-input: sep(target, left) && sep(target, right)
+//@   requires plain-measure-blocks: notTopN(left) && notTopN(right)
+//@   modifies left.idx
+//@   modifies right.idx
+//@   loop 0 invariant who: target == old(target) && ((left == old(left) && right == old(right)) || (left == old(right) && right == old(left)))
+//@   loop 0 invariant apart: sep(target, left) && sep(target, right)
+//@   at-stmt "target.append(left, i)" requires keeps-the-left-duplicate-only-if-not-older: (!isTopN && i > left.idx && left.timestamps[i-1] == ts2) ==> left.versions[i-1] >= right.versions[right.idx]
+//@   at-stmt "target.append(right, right.idx+1)" requires right-replaces-only-a-strictly-older-duplicate: i > left.idx && left.timestamps[i-1] == ts2 && left.versions[i-1] < right.versions[right.idx]
+//@   at-stmt "target.append(left, i-1)" requires the-dropped-left-row-is-the-duplicate: i > left.idx && left.timestamps[i-1] == ts2
+//
+// queryResult.merge (query-time heap merge): a cursor row is appended to the result only when its timestamp differs from
+// the last row's, and it overwrites the last row only when it has the same timestamp and a strictly higher version than
+// the one the row currently shows.
+//@ func queryResult.merge#row-rule
+//@   mode int
+//@   opt only-stated
+//@   opt decl-pc
+//@   requires qr != nil && qr.topNQueryOptions == nil
+//@   modifies qr.data
+//@   at-stmt "topBC.copyTo(result, storedIndexValue, tagProjection)" requires appends-only-a-new-timestamp: len(result.Timestamps) == 0 || topBC.timestamps[topBC.idx] != result.Timestamps[len(result.Timestamps)-1]
+//@   at-stmt "topBC.replace(result, storedIndexValue)" requires overwrites-only-the-same-timestamp-with-a-higher-version: len(result.Timestamps) > 0 && topBC.timestamps[topBC.idx] == result.Timestamps[len(result.Timestamps)-1] && topBC.versions[topBC.idx] > lastVersion
+//@   at-stmt "lastVersion = topBC.versions[topBC.idx]" requires the-remembered-version-is-the-appended-rows: len(result.Versions) > 0 && result.Versions[len(result.Versions)-1] == topBC.versions[topBC.idx]
+//@   loop 0 invariant result != nil && !isTopN
+//
+// mustInitFromDataPoints (batch build), the block-building loop (fragment contract: this loop only, from an arbitrary state
+// in which nothing has been remembered yet). The remembered (series, timestamp) is always that of the previous surviving
+// row - also right after a block or series switch - so a row is dropped only if it repeats the previous surviving row's
+// series and timestamp, and a row that does repeat them is never kept. With the batch order (Less: series, timestamp,
+// version descending) the survivor of a run of equal (series, timestamp) is the row with the highest version.
+//@ func blockWriter.MustWriteDataPoints
+//@   assumed encodes one block (columns are not modelled)
+//@ func uncompressedDataPointSizeBytes
+//@   assumed size estimate
+//@   pure
+//@ func memPart.mustInitFromDataPoints#duplicate-rule
+//@   mode int
+//@   opt fragment writes tsPrev
+//@   opt only-stated
+//@   requires dps != nil && sidPrev == 0 && tsPrev == 0 && indexPrev == 0
+//@   requires columns-aligned: len(dps.seriesIDs) == len(dps.timestamps) && len(dps.versions) == len(dps.timestamps) && len(dps.tagFamilies) == len(dps.timestamps) && len(dps.fields) == len(dps.timestamps) && !sameobj(dps.timestamps, dps.versions)
+//@   requires positive-time: forall a :: 0 <= a && a < len(dps.timestamps) ==> dps.timestamps[a] > 0
+//@   requires real-series: forall a :: 0 <= a && a < len(dps.seriesIDs) ==> dps.seriesIDs[a] != 0
+//@   at-stmt "dps.skip(i)" requires drops-only-a-repeat-of-the-previous-surviving-row: i > 0 && dps.seriesIDs[i-1] == dps.seriesIDs[i] && dps.timestamps[i-1] == dps.timestamps[i]
+//@   at-stmt "uncompressedBlockSizeBytes += uncompressedDataPointSizeBytes(i, dps)" requires never-keeps-a-repeat: i == 0 || dps.seriesIDs[i-1] != dps.seriesIDs[i] || dps.timestamps[i-1] != dps.timestamps[i]
+//@   loop 0 invariant 0 <= i && len(dps.seriesIDs) == len(dps.timestamps) && len(dps.versions) == len(dps.timestamps) && len(dps.tagFamilies) == len(dps.timestamps) && len(dps.fields) == len(dps.timestamps)
+//@   loop 0 invariant positive: (forall a :: 0 <= a && a < len(dps.timestamps) ==> dps.timestamps[a] > 0) && (forall a :: 0 <= a && a < len(dps.seriesIDs) ==> dps.seriesIDs[a] != 0)
+//@   loop 0 invariant start: i == 0 ==> sidPrev == 0 && tsPrev == 0
+//@   loop 0 invariant run: i > 0 ==> sidPrev == dps.seriesIDs[i-1] && tsPrev == dps.timestamps[i-1]
